@@ -269,6 +269,8 @@ func (e *kvElection) attemptAcquireWithRetry(ctx context.Context) {
 		if e.IsLeader() {
 			return
 		}
+		// gofail: var verifRoundBeforeAttempt struct{}
+		// verifYield("roundBeforeAttempt")
 
 		err := e.attemptAcquire()
 		if err == nil {
@@ -378,6 +380,8 @@ func (e *kvElection) attemptAcquire() error {
 }
 
 func (e *kvElection) becomeLeader(token string, rev uint64) {
+	// gofail: var verifBecomeLeaderEntry struct{}
+	// verifYield("becomeLeaderEntry")
 	e.mu.Lock()
 	defer e.mu.Unlock()
 
@@ -568,6 +572,8 @@ func (e *kvElection) becomeFollower() bool {
 // become leader meanwhile through another attempt of its own, so the check and
 // the transition happen under the same lock that becomeLeader takes.
 func (e *kvElection) settleAsFollower() {
+	// gofail: var verifSettleAsFollower struct{}
+	// verifYield("settleAsFollower")
 	e.mu.Lock()
 	defer e.mu.Unlock()
 	if e.isLeader.Load() {
@@ -807,6 +813,8 @@ func (e *kvElection) StopWithContext(ctx context.Context, opts StopOptions) erro
 		)...,
 	)
 
+	// gofail: var verifStopBeforeDelete struct{}
+	// verifYield("stopBeforeDelete")
 	if opts.DeleteKey && wasLeader {
 		// The store call cannot be cancelled; do not let it hold up the caller
 		// beyond the deadline.
@@ -1157,6 +1165,8 @@ func (e *kvElection) ValidateToken(ctx context.Context) (bool, error) {
 // Use this for operations that must not proceed with an invalid token.
 func (e *kvElection) ValidateTokenOrDemote(ctx context.Context) bool {
 	isValid, err := e.ValidateToken(ctx)
+	// gofail: var verifOrDemoteAfterVerdict struct{}
+	// verifYield("orDemoteAfterVerdict")
 	if err != nil || !isValid {
 		if e.IsLeader() {
 			e.handleValidationFailure(err)
